@@ -1,6 +1,150 @@
-(* C01 -- stub while the correspondence is being brought up *)
-From Coq Require Import ZArith List Bool.
-From LK Require Import Model.C01_dataset.
-Theorem stub_c01 : forall v, opt_vocab (Some v) = v.
-Proof. reflexivity. Qed.
-Print Assumptions stub_c01.
+(* C01 -- Every dataset view denotes the same interactions under a stable ID-number map.
+   Property theorems only; each is closed by `exact <lemma>` and followed by Print Assumptions.
+
+   Reading the model (Model/C01_dataset.v): `final s ar ops` is the DatasetBuilder state after the
+   operation list `ops` (add_entities / add_interactions with the insert, filter, error policies /
+   filter_interactions / clear_relationships; failing operations are kept in the list, with whatever
+   they had already changed); `build` is DatasetBuilder.build() + MatrixRelationshipSet.__init__ (sort by
+   (user number, item number), value_counts -> row sizes shifted by one -> cumulative sum).  Identifiers
+   are integers (order-isomorphic image of the real identifiers).  `s_run` is the same operation list
+   read on identifiers only -- no numbers anywhere -- and `k_recs` of it are the surviving input records.
+   `dec_with d g r` = (user id, item id, g r) of the stored record r under the built vocabularies.
+
+   Property text -> theorem:
+   * "identifiers correspond one-to-one with the contiguous numbers 0..n-1"       -> vocab_bijection
+   * "ascending identifier order for a one-shot build"                              -> one_shot_ascending
+   * "numbers already assigned never change when more entities or records are added" -> numbers_stable
+   * row pointers (state anchor)                                                    -> row_ptrs_correct
+   * "every view ... denotes exactly the same set of (user, item, attribute values) as the input; no
+      record is lost, duplicated, or attached to a different user or item"          -> views_denote_input,
+                                                                                       no_repeated_pair_built
+   * "identifiers unknown to the dataset are reported as unknown"                   -> unknown_reported,
+                                                                                       outcomes_match_reading
+   * "entities without interactions appear as empty rows or columns with zero counts" -> inactive_empty
+   * "repeats are rejected when the dataset is built"                               -> repeats_rejected
+   * Arrow's sort is a contract; the model's sort is proved                         -> sort_contract
+   Not theorems (correspondence only): the SciPy/PyTorch constructors, the group_by statistics other
+   than the counts (mean, first/last time), Arrow's join/unique/value_counts kernels themselves. *)
+From Coq Require Import ZArith List Bool Arith Sorting.Sorted Sorting.Permutation.
+From LK Require Import Model.C01_dataset Proofs.C01_vocab Proofs.C01_sort Proofs.C01_rowptr Proofs.C01_refine1
+  Proofs.C01_refine2 Proofs.C01_views Proofs.C01_main.
+Import ListNotations.
+Open Scope Z_scope.
+
+(* after ANY operation list both vocabularies are duplicate-free, hence id <-> number is a bijection
+   between the known identifiers and 0..n-1, and anything else resolves to None *)
+Theorem vocab_bijection : forall s ar ops,
+  let st := final s ar ops in
+  NoDup (U st) /\ NoDup (I st) /\
+  forall v, (v = U st \/ v = I st) ->
+    (forall x, In x v -> exists n, index_of x v = Some n /\ (n < length v)%nat /\ term v n = x) /\
+    (forall n, (n < length v)%nat -> In (term v n) v /\ index_of (term v n) v = Some n) /\
+    (forall x, ~ In x v -> index_of x v = None).
+Proof. exact vocab_bijection_main. Qed.
+Print Assumptions vocab_bijection.
+
+(* a class populated by one call -- add_entities, or the insert policy of add_interactions (which is
+   what from_interactions_df does) -- is numbered in strictly ascending identifier order; more
+   generally every later increment is itself ascending (add_entities_ok) *)
+Theorem one_shot_ascending :
+  (forall new pol v, add_entities None new pol = Ok (Some v) -> StronglySorted Z.lt v) /\
+  (forall ids v nums, link_class None ids MInsert = Ok (Some v, nums) -> StronglySorted Z.lt v).
+Proof. exact (conj one_shot_ascending_l link_one_shot). Qed.
+Print Assumptions one_shot_ascending.
+
+Theorem numbers_stable : forall s ar ops1 ops2,
+  prefix (U (final s ar ops1)) (U (final s ar (ops1 ++ ops2))) /\
+  prefix (I (final s ar ops1)) (I (final s ar (ops1 ++ ops2))) /\
+  (forall a b x n, prefix a b -> index_of x a = Some n -> index_of x b = Some n).
+Proof. exact numbers_stable_main. Qed.
+Print Assumptions numbers_stable.
+
+Theorem row_ptrs_correct : forall n tbl,
+  StronglySorted (by_key r_u) tbl -> (forall r, In r tbl -> (r_u r < n)%nat) ->
+  let p := row_ptrs n tbl in
+  length p = S n /\ nth 0 p 0%nat = 0%nat /\ nth n p 0%nat = length tbl /\
+  (forall r, (r < n)%nat -> (nth r p 0 <= nth (S r) p 0)%nat) /\
+  (forall r, (r < n)%nat -> slice tbl (nth r p 0%nat) (nth (S r) p 0%nat) = filter (fun x => Nat.eqb (r_u x) r) tbl).
+Proof. exact row_ptrs_correct_l. Qed.
+Print Assumptions row_ptrs_correct.
+
+(* the record table by numbers and by ids, the per-user rows, CSR and COO with any value field, and
+   the CSR walk over all attributes all decode to ONE list, which is a permutation of the surviving input *)
+Theorem views_denote_input : forall s ar ops d,
+  build (final s ar ops) = Ok d ->
+  let spec := k_recs (s_run s (s_init ar) ops) in
+  Permutation spec (map (dec_with d r_a) (d_tbl d)) /\
+  view_table_ids d = map (dec_with d r_a) (d_tbl d) /\
+  den_table d (view_table d) = map (dec_with d r_a) (d_tbl d) /\
+  den_user_rows d = map (dec_with d r_a) (d_tbl d) /\
+  (forall f, let '(p, c, x) := view_csr d f in den_csr d p c x = map (dec_with d (value_of f)) (d_tbl d)) /\
+  (forall f, let '(r, c, x) := view_coo d f in den_coo d r c x = map (dec_with d (value_of f)) (d_tbl d)) /\
+  den_csr d (d_ptrs d) (map r_i (d_tbl d)) (map r_a (d_tbl d)) = map (dec_with d r_a) (d_tbl d) /\
+  view_nnz d = length spec.
+Proof. exact views_denote_input_l. Qed.
+Print Assumptions views_denote_input.
+
+(* the built table holds no (user, item) pair twice *)
+Theorem no_repeated_pair_built : forall s ar ops d,
+  build (final s ar ops) = Ok d -> NoDup (map fst (d_tbl d)).
+Proof. exact no_repeated_pair_built_l. Qed.
+Print Assumptions no_repeated_pair_built.
+
+(* every operation raises exactly when its identifier-level reading says so (unknown ids under "error",
+   duplicates, forbidden re-inserts, repeated pairs, missing tables), for every operation list *)
+Theorem outcomes_match_reading : forall s ar ops,
+  map fst (snd (run s (init_state ar) ops)) = s_errs s (s_init ar) ops.
+Proof. exact outcomes_match_reading_l. Qed.
+Print Assumptions outcomes_match_reading.
+
+Theorem unknown_reported :
+  (forall v x, resolve v x = None <-> ~ In x v) /\
+  (forall d u, view_user_row d u = None <-> ~ In u (d_users d)) /\
+  (forall t ids, (exists e, link_class (Some t) ids MError = Err e) <-> exists x, In x ids /\ ~ In x t) /\
+  (forall t ids v nums, link_class (Some t) ids MFilter = Ok (v, nums) -> v = Some t /\ nums = map (resolve t) ids).
+Proof. exact unknown_reported_l. Qed.
+Print Assumptions unknown_reported.
+
+Theorem inactive_empty : forall s ar ops d,
+  build (final s ar ops) = Ok d ->
+  (forall u, In u (d_users d) -> (forall r, In r (k_recs (s_run s (s_init ar) ops)) -> uid_of r <> u) ->
+     view_user_row d u = Some [] /\
+     exists n, index_of u (d_users d) = Some n /\ st_records (stats_of s User d n) = 0%nat /\
+               st_other (stats_of s User d n) = 0%nat /\ nth n (d_ptrs d) 0%nat = nth (S n) (d_ptrs d) 0%nat) /\
+  (forall i, In i (d_items d) -> (forall r, In r (k_recs (s_run s (s_init ar) ops)) -> iid_of r <> i) ->
+     exists n, index_of i (d_items d) = Some n /\ st_records (stats_of s Item d n) = 0%nat /\
+               st_other (stats_of s Item d n) = 0%nat /\ ~ In n (map r_i (d_tbl d))).
+Proof. exact inactive_empty_l. Qed.
+Print Assumptions inactive_empty.
+
+Theorem repeats_rejected :
+  (forall s st rows p us unums is_ inums,
+     b_repeats st = RForbidden ->
+     link_class (b_users st) (map uid_of rows) p = Ok (us, unums) ->
+     link_class (b_items st) (map iid_of rows) p = Ok (is_, inums) ->
+     ~ NoDup (map fst (b_table st ++ zip_recs unums inums rows)) ->
+     snd (step s st (AddInteractions rows p)) = Some EData /\
+     b_table (fst (step s st (AddInteractions rows p))) = b_table st) /\
+  (forall st, b_repeats st = RPresent -> build st = Err ENotImpl).
+Proof. exact repeats_rejected_l. Qed.
+Print Assumptions repeats_rejected.
+
+Theorem sort_contract : forall l, StronglySorted rle (sort_recs l) /\ Permutation l (sort_recs l).
+Proof. exact sort_contract_l. Qed.
+Print Assumptions sort_contract.
+
+(* non-vacuity: identifiers not in ascending order of arrival (ranks 4, 1, 3 then 0, 2), a late-added
+   user, an unknown user filtered out of a batch, a pair removed by a filter, an inactive user and item *)
+Example c01_nonvacuous :
+  let s := {| s_rating := true; s_ts := false; s_extra := false |} in
+  let ops := [AddEntities User [4; 1; 3] DupError; AddEntities Item [7; 5] DupError;
+              AddInteractions [(3, 5, [6]); (1, 7, [2]); (9, 5, [8]); (1, 5, [4])] MFilter;
+              AddEntities User [0; 2; 4] DupUpdate;
+              FilterInteractions None None (Some (RemPairs [(1, 7)]));
+              AddInteractions [(0, 7, [3])] MError] in
+  exists d, build (final s false ops) = Ok d /\
+    d_users d = [1; 3; 4; 0; 2] /\ d_items d = [5; 7] /\
+    d_ptrs d = [0; 1; 2; 2; 3; 3]%nat /\
+    k_recs (s_run s (s_init false) ops) = [(3, 5, [6]); (1, 5, [4]); (0, 7, [3])] /\
+    view_table_ids d = [(1, 5, [4]); (3, 5, [6]); (0, 7, [3])].
+Proof. cbv zeta. eexists. split; [vm_compute; reflexivity|]. vm_compute. repeat split; reflexivity. Qed.
